@@ -22,7 +22,10 @@ def run_chunk(args):
     lines, expect, metas = [], [], []
     res = {"ops": 0, "hist": 0, "checks": 0, "fails": [], "mismatch": [], "l0": [], "opdist": {}, "lendist": {},
            "clsdist": {}, "distinct": [], "samples": [], "driver_error": None, "nontrivial_ops": 0}
-    for job in jobs:
+    queue = list(jobs)
+    res["faulted"] = 0
+    while queue:
+        job = queue.pop(0)
         cls, cfg = job["cls"], job["cfg"]
         hist = job.get("hist")
         if hist is None:
@@ -35,7 +38,7 @@ def run_chunk(args):
             res["opdist"][d["op"]] = res["opdist"].get(d["op"], 0) + 1
         res["ops"] += len(hist)
         if corr:
-            r = R.run_recorded(uni, reg, cls, cfg, hist, faults=job.get("faults"))
+            r = R.run_recorded(uni, reg, cls, cfg, hist)
             base = len(lines)
             lines += r["lines"]
             expect += [(base + li, e, (len(metas), k)) for li, e, k in r["expect"]]
@@ -45,6 +48,20 @@ def run_chunk(args):
             fails = r["fails"]
             nt = sum(1 for li, e, k in r["expect"] if "models=[]" not in e)
             res["nontrivial_ops"] += nt
+            if any(d.get("fault") is not None for d in hist):
+                res["faulted"] += 1
+            if job.get("faults_n"):
+                # C17: derive faulted variants: a give-up at check j of call k, for sampled / all (k, j)
+                pos = []
+                for li, e, k in r["expect"]:
+                    nchecks = sum(1 for t in r["lines"][li].split(" ;; ", 1)[1].split() if t.startswith("C:"))
+                    pos += [(k, j) for j in range(nchecks)]
+                if job["faults_n"] != "all" and len(pos) > job["faults_n"]:
+                    pos = rng.sample(pos, job["faults_n"])
+                for (k, j) in pos:
+                    h2 = [dict(d) for d in hist]
+                    h2[k]["fault"] = j
+                    queue.append({"cls": cls, "cfg": cfg, "hist": h2})
         else:
             fails, _o = L.run_history(uni, cls, cfg, hist)
         metas.append((cls, cfg, hist))
@@ -88,14 +105,14 @@ def run_jobs(ctx, jobs, workers, corr=True, chunk_size=12):
     args = [(ctx.seed, ctx._chunk_base + i, ch, corr) for i, ch in enumerate(chunks)]
     ctx._chunk_base += len(chunks)
     merged = {"ops": 0, "hist": 0, "checks": 0, "fails": [], "mismatch": [], "l0": [], "opdist": {}, "lendist": {},
-              "clsdist": {}, "driver_error": None, "nontrivial_ops": 0}
+              "clsdist": {}, "driver_error": None, "nontrivial_ops": 0, "faulted": 0}
     if workers <= 1:
         results = [run_chunk(a) for a in args]
     else:
         with cf.ProcessPoolExecutor(max_workers=workers) as ex:
             results = list(ex.map(run_chunk, args))
     for r in results:
-        for k in ("ops", "hist", "checks", "nontrivial_ops"):
+        for k in ("ops", "hist", "checks", "nontrivial_ops", "faulted"):
             merged[k] += r[k]
         for k in ("fails", "mismatch", "l0"):
             merged[k] += r[k]
